@@ -306,6 +306,8 @@ type c13Fixed struct {
 }
 
 var c13Corpus = []c13Fixed{
+	// former evaluator panic (disjunctError type assertion), fixed by a312802: must import and judge
+	{`{"$defs":{"d":{"enum":[-2.5,2.0],"oneOf":[{"exclusiveMaximum":2.5},false,{"uniqueItems":true}]}},"properties":{"a":{"$ref":"#/$defs/d"}}}`, []string{`{"a":2.0}`, `{"a":-2.5}`, `{"a":1}`, `{}`}},
 	{`{"type":"integer"}`, []string{`1`, `1.0`, `1.5`, `"a"`}},
 	{`{"type":["integer","number"]}`, []string{`1`, `1.5`}},
 	{`{"const":1}`, []string{`1`, `1.0`, `2`}},
